@@ -470,6 +470,23 @@ def rule_W_BK(ctx, d, paths, label=None):
     ctx.ob('W-BK', construct)
 
 
+def rule_W_BKRES(ctx, d, paths):
+    """bookkeeping only ever names resident keys: the current key is recorded only after it was found or stored"""
+    K = d.K()
+    for o in paths:
+        evs = o.st.events
+        for i, e in enumerate(evs):
+            if e.kind == 'BK' and e.args[1] in (C('append'), C('appendleft'), C('inc'), C('set')) and len(e.args) > 2 and e.args[2] == K:
+                ok = any(x.kind in ('GET', 'SET') and x.args[0] == K for x in evs[:i])
+                ctx.ob('W-BKRES', None, ok)
+                if not ok:
+                    ctx.fail('W-BKRES', wq(d), '%s.%s(K) before K is resident' % (d.bkname(e.args[0]), e.args[1][1]),
+                             'the eviction bookkeeping "%s" records the current key before it is known to be resident (no successful lookup or store of K earlier on the '
+                             'path): when the function then raises, or the key is never stored, a phantom entry stays behind - a later overflow selects it, the delete is '
+                             'a swallowed KeyError, and nothing is evicted' % d.bkname(e.args[0]), where(d, e.line), render_path(o))
+    ctx.ob('W-BKRES', d.name + ' paths')
+
+
 # ---------------------------------------------------------------------------------------------
 def hit_paths(o, K):
     """classify a normal path: 'hit' | 'load' | 'miss' | 'fallback' | None"""
